@@ -183,6 +183,30 @@ def run(chk, P):
     chk.floor('R08.3', 3)
     r08_5(chk, P, E)
     chk.floor('R08.5', 3)
+    # R08.4a: the conversion of a target uses the set-up of the link it selected (shared implementation with C09 R09.4/R09.1)
+    from rules import c09
+
+    class Proxy:
+        def __init__(self, chk, rid):
+            self.chk, self.rid = chk, rid
+
+        def __getattr__(self, a):
+            return getattr(self.chk, a)
+
+        def ob(self, rule, *a, **k):
+            return self.chk.ob(self.rid, *a, **k)
+
+        def assumed(self, rule, *a, **k):
+            return self.chk.assumed(self.rid, *a, **k)
+
+        def rule(self, rid, text):
+            pass
+    chk.rule('R08.4', 'target conversion is link-consistent: per-link tables are subscripted by one link variable with the '
+             'table\'s own slot roles, and link 0\'s set-up (vf->vi) is never used by shortcut when a link was selected '
+             '(time -> sample conversion uses vi[link].rate of the selected link)')
+    c09.r09_1(Proxy(chk, 'R08.4'), P)
+    c09.r09_4(Proxy(chk, 'R08.4'), P)
+    chk.floor('R08.4', 40)
     import frames
     frames.c08(chk, P)
     chk.trusted += ['clang 14 front end', 'K3 external effect table', 'interval abstraction of return values (a return whose '
